@@ -82,6 +82,23 @@ def run(item, ctx, tier, seed):
             if not ok:
                 continue
             ctx.state()
+            if item["grid"] == "irregular" and (ep, en) in ((0, 0), (2, 3)):
+                # an object that computed an EER for other scores and then received these scores through its
+                # public attributes must answer for the new scores
+                ok3, s3 = guarded(ctx, "construct", case, Scores, [v * 0.5 + 20.0 for v in pos], [v * 0.5 + 21.0 for v in neg],
+                                  nb_easy_pos=ep + 1, nb_easy_neg=en, score_class=sc, equal_class=ec)
+                if ok3:
+                    guarded(ctx, "warm-up", case, s3.eer)
+                    import numpy as np
+
+                    s3.pos, s3.neg = np.sort(np.asarray(pos, dtype=float)), np.sort(np.asarray(neg, dtype=float))
+                    s3.nb_easy_pos, s3.nb_easy_neg = ep, en
+                    okm, resm = guarded(ctx, "eer-after-attribute-update", case, s3.eer)
+                    okf, resf = guarded(ctx, "eer", case, s.eer)
+                    ctx.tick()
+                    if okm and okf and not (abs(resm[1] - resf[1]) <= 1e-9 and abs(resm[0] - resf[0]) <= 1e-6 * rng_):
+                        ctx.fail("eer-follows-the-current-scores", dict(case, history="eer() on other scores, then pos/neg/easy assigned"),
+                                 observed=[float(resm[0]), float(resm[1])], expected=[float(resf[0]), float(resf[1])])
             ok, res = guarded(ctx, "eer", case, s.eer)
             ctx.tick()
             if not (sep or inv):
